@@ -1,5 +1,4 @@
-import Pymeeus.Refine.SunEarth
-import Pymeeus.Gen.R.Geocentric
+import Pymeeus.Refine.Geocentric
 /-
 C09 — geocentric positions match the library's own heliocentric vectors.   (PARTIAL)
 
@@ -16,7 +15,7 @@ dynamically there.
 -/
 noncomputable section
 namespace Pymeeus.C09
-open Pymeeus Pymeeus.PR Pymeeus.GenR Pymeeus.GenR.Helio Pymeeus.Refine.Vsop Pymeeus.Refine.SunEarth Pymeeus.Spec
+open Pymeeus Pymeeus.PR Pymeeus.GenR Pymeeus.GenR.Helio Pymeeus.Refine.Vsop Pymeeus.Refine.SunEarth Pymeeus.Refine.Geocentric Pymeeus.Spec
 
 /-! ## Elongation -/
 
@@ -372,6 +371,61 @@ theorem minor_parabolic_value (body : MinorBody) (t_peri v rr : ℝ)
     · rw [hval, ← hd]; exact (abs_lt.mp hlt).1
     · rw [hval, ← hd]; exact (abs_lt.mp hlt).2
     · intro hq; rw [← hr, e1]; nlinarith [sq_nonneg s, mul_self_nonneg s]
+
+/-! ## Kepler's equation: totality of the elliptic branch -/
+
+/-- The bisection loop of `kepler_equation` (`while abs(e0 - ef) > TOL`) ends within the fuel of the model for
+    EVERY eccentricity and mean anomaly (the step is halved each time: 41 iterations at most), so the model's
+    "fuel exhausted" outcome never occurs; and the eccentric anomaly it returns is strictly between 0 and π
+    (before the sign `f` is applied). -/
+theorem kepler_loop_terminates (ecc m : ℝ) :
+    ∃ e0, loopFuel (kepler_step ecc m) 10000 (pi / 2.0, pi / 4.0, 0.0) = some e0 ∧ 0 < e0 ∧ e0 < Real.pi := by
+  have hpi := Real.pi_pos
+  have hpi4 := Real.pi_lt_four
+  have e2 : (2.0 : ℝ) = 2 := by norm_num
+  have e4 : (4.0 : ℝ) = 4 := by norm_num
+  have e0' : (0.0 : ℝ) = 0 := by norm_num
+  have hP : (pi : ℝ) = Real.pi := rfl
+  obtain ⟨r, hr, hb⟩ := kepler_loop_aux ecc m 40 (pi / 2.0, pi / 4.0, 0.0) (Real.pi / 4) (by positivity)
+    (by simp [hP, e4]) (by simp only [hP, e2, e0', sub_zero]; rw [abs_of_pos (by positivity)]; ring)
+    (by rw [tol_val]; norm_num; linarith) 10000 (by norm_num)
+  refine ⟨r, hr, ?_⟩
+  simp only [hP, e2] at hb
+  have := abs_lt.mp hb
+  constructor <;> linarith [this.1, this.2]
+
+/-- `kepler_equation` raises `ValueError` for every eccentricity ≥ 1 (as guarded in the source) and returns a pair
+    of Angles for every elliptic eccentricity 0 ≤ e < 1 and every mean anomaly: it is total on its documented
+    domain. -/
+theorem kepler_equation_domain (ecc manom : ℝ) :
+    (1 ≤ ecc → kepler_equation ecc manom = .error .valueError) ∧
+    (0 ≤ ecc → ecc < 1 → ∃ E v, kepler_equation ecc manom = .ok (E, v)) := by
+  have e1 : (1.0 : ℝ) = 1 := by norm_num
+  constructor
+  · intro h
+    simp [kepler_equation, ple, e1, h]
+  · intro h0 h1
+    have key : ∀ mm : ℝ, loopFuel (kepler_step ecc mm) 10000 (pi / 2.0, pi / 4.0, 0.0) ≠ none := by
+      intro mm hn
+      obtain ⟨r, hr, _⟩ := kepler_loop_terminates ecc mm
+      rw [hr] at hn; cases hn
+    have hne : ¬ ((1 : ℝ) - ecc = 0) := by intro h; linarith
+    have hratio : ¬ ((1 + ecc) / (1 - ecc) < 0) := by
+      rw [not_lt]; exact div_nonneg (by linarith) (by linarith)
+    unfold kepler_equation
+    simp only [ple, e1, not_le.mpr h1, decide_false, Bool.false_eq_true, if_false]
+    split
+    · rename_i hnone
+      exact absurd hnone (key _)
+    · simp only [peq, plt, e1, lit0, hne, hratio, decide_false, Bool.false_eq_true, if_false]
+      exact ⟨_, _, rfl⟩
+
+/-- Hence the elliptic regime of `Minor.geocentric_position` (e < 0.98) always produces a true anomaly and a
+    radius vector: no exception and no non-termination can come from this branch. -/
+theorem minor_elliptic_defined (body : MinorBody) (t_peri : ℝ) (h0 : 0 ≤ body.e) (h1 : body.e < 0.98) :
+    ∃ v rr, minor_elliptic body t_peri = .ok (v, rr) := by
+  obtain ⟨E, v, h⟩ := (kepler_equation_domain body.e (angOfDeg (t_peri * body.n))).2 h0 (by linarith)
+  exact ⟨v, body.a * (1.0 - body.e * pcos (angRad (angToPositive E))), by simp only [minor_elliptic, h]⟩
 
 /-! ## Planets: light-time structure -/
 
